@@ -53,6 +53,7 @@ func main() {
 		}
 		return ps
 	})
+	hist.HostilePeerRounds(r, "no-trace")
 	r.Floor("twin.compared", 1500)
 	r.Floor("canon.compared", 1500)
 	for _, f := range []string{"failed.play:bad-first", "failed.play:award+bad", "failed.play:good+bad", "failed.confirm:unknown-parent", "failed.confirm:second-genesis",
